@@ -114,7 +114,7 @@ func init() {
 	register(&Prop{
 		ID:         "C07",
 		Title:      "Update expressions apply exactly their actions and nothing else",
-		Decided:    "(R1) the update parser, the action dispatch and the clause-continuation list agree on the four actions SET, ADD, REMOVE, DELETE, and + / − are the only arithmetic operators; (R2) per action, the effects reachable from its handler are the ones the action may have: SET assigns (attribute or path), REMOVE removes, ADD adds to a number/set or creates the attribute only when it is undefined, DELETE removes set members and never creates an attribute; (R3) on a left-hand side the handler does not support, every handler returns an error object – never a silent success without effect; (R4) the working environment is applied to the item only after parse and evaluation succeeded (shared with C08.R2); (R5) 'removed means gone': when the environment is written back, attributes of the item that the environment no longer holds are deleted; (R6) 'nothing else changed': only attributes targeted by an action are written back; (R7) '+' computes left + right and '−' left − right, in that order; (R8) every right-hand side reads the pre-update item (two-phase evaluation); (R9) because the write-back re-serialises every attribute (R6), an untouched attribute keeps its type only if every object kind writes its type-carrying field non-nil, also when empty (= C10.R7 on the object side); (R10) the functions usable in an update (list_append, if_not_exists, …) and the arithmetic of SET build new objects: none of them stores into an object it received as an operand, because operands are the environment's own objects of OTHER attributes; (R12) if_not_exists keeps an existing attribute of type NULL: existence is decided by the undefined test (= C06.R5 at that function); (R14) an attribute may be named like an alias key of the request (\"#s\"): loading the item into the environment and writing it back use the attribute names as they are – neither reaches a lookup in an alias table, otherwise such an attribute is confused with, or renamed to, the attribute the alias stands for; (R13) positions in a list refer to the stored list until the update is finished (removals are compacted once, at the end): the read accessors of the object types – Get, Contains, Type, Inspect, ToDynamoDB – store nothing through their receiver and call no mutating method on it; (R15) the environment has no state beyond store / removed / toCompact / Aliases; a field added later must be kept coherent with the store; (R16) the environment's store and its set of removed attributes are accessed under one key value per method (the alias-resolved name); (R17) only the environment's end-of-update pass compacts lists, after the actions.",
+		Decided:    "(R1) the update parser, the action dispatch and the clause-continuation list agree on the four actions SET, ADD, REMOVE, DELETE, and + / − are the only arithmetic operators; (R2) per action, the effects reachable from its handler are the ones the action may have: SET assigns (attribute or path), REMOVE removes, ADD adds to a number/set or creates the attribute only when it is undefined, DELETE removes set members and never creates an attribute; (R3) on a left-hand side the handler does not support, every handler returns an error object – never a silent success without effect; (R4) the working environment is applied to the item only after parse and evaluation succeeded (shared with C08.R2); (R5) 'removed means gone': when the environment is written back, attributes of the item that the environment no longer holds are deleted; (R6) 'nothing else changed': only attributes targeted by an action are written back; (R7) '+' computes left + right and '−' left − right, in that order; (R8) every right-hand side reads the pre-update item (two-phase evaluation); (R9) because the write-back re-serialises every attribute (R6), an untouched attribute keeps its type only if every object kind writes its type-carrying field non-nil, also when empty (= C10.R7 on the object side); (R10) the functions usable in an update (list_append, if_not_exists, …) and the arithmetic of SET build new objects: none of them stores into an object it received as an operand, because operands are the environment's own objects of OTHER attributes; (R12) if_not_exists keeps an existing attribute of type NULL: existence is decided by the undefined test (= C06.R5 at that function); (R14) an attribute may be named like an alias key of the request (\"#s\"): loading the item into the environment and writing it back use the attribute names as they are – neither reaches a lookup in an alias table, otherwise such an attribute is confused with, or renamed to, the attribute the alias stands for; (R13) positions in a list refer to the stored list until the update is finished (removals are compacted once, at the end): the read accessors of the object types – Get, Contains, Type, Inspect, ToDynamoDB – store nothing through their receiver and call no mutating method on it; (R15) the environment has no state beyond store / removed / toCompact / Aliases; a field added later must be kept coherent with the store; (R16) the environment's store and its set of removed attributes are accessed under one key value per method (the alias-resolved name); (R17) only the environment's end-of-update pass compacts lists, after the actions; (R18) the read accessor looks the resolved name up literally first (= C06.R17), like Set and Remove.",
 		NotDecided: "the resulting values themselves: list_append / if_not_exists results, nested path semantics, set arithmetic, number formatting (C12).",
 		Rules: []RuleDef{
 			{ID: "R1", Desc: "the four actions agree across parser, dispatch and continuation list (T-TABLE)", Run: c07R1},
@@ -151,6 +151,7 @@ func init() {
 			{ID: "R15", Desc: "the evaluation environment has no state beyond the confirmed fields: a snapshot or memo added to it must follow every write of the store (T-FIELD closure)", Run: func(e *Engine) { stateModelClosed(e, "R15", func(k string) bool { return k == "lang.Environment" }) }},
 			{ID: "R16", Desc: "store and removed-set of the environment are kept under the same (alias-resolved) key in every method: a REMOVE through an alias removes the attribute from the item", Run: c07R16},
 			{ID: "R17", Desc: "lists are compacted once, by the environment, after every action: who-may-call on the compaction (list indexes of an update address the pre-update list)", Run: c07R17},
+			{ID: "R18", Desc: "reads and writes of the environment agree on the attribute a name denotes: the read accessor looks the resolved name up literally first, as Set and Remove do (= C06.R17)", Run: aliasRule("R18", c06R17, nil)},
 		},
 	})
 }
